@@ -1691,4 +1691,18 @@ example :
       it (.whileLoop false [it (.tick 0 3)] [it (.call (.f 0) 0), it (.probe 1)]), it (.probe 2)]]).1.trace = [(2, 0)] := by
   decide
 
+/-! ### tables of break/continue (re-extracted; both the chain/early-return and the loop/`checked_sub` shapes are read) -/
+
+/-- the level arithmetic and the default count of the transcribed `break`/`continue` are those of the code as it
+    stands: with `c > 0` visible loops the divert carries `c - breakLevelOffset`, and no operand means
+    `breakDefaultCount` -/
+theorem break_tables (isBreak p : Bool) (stack : List Frame) (n : Nat) (h : Builtins.loopCountChain stack n ≠ 0) :
+    Builtins.breakRun isBreak stack n =
+      some ⟨Generated.ExecTables.SUCCESS, .break_ (if isBreak
+        then .break_ (Builtins.loopCountChain stack n - Generated.ExecTables.breakLevelOffset)
+        else .continue_ (Builtins.loopCountChain stack n - Generated.ExecTables.continueLevelOffset))⟩ ∧
+    Builtins.breakParse p [] = .ok Generated.ExecTables.breakDefaultCount := by
+  refine ⟨by simp [Builtins.breakRun, h, Generated.ExecTables.breakLevelOffset,
+    Generated.ExecTables.continueLevelOffset], Builtins.breakParse_nil p⟩
+
 end YashModel.Exec
